@@ -3,6 +3,8 @@
 #define VF_MAIN
 #include "vf.h"
 #include "guard.h"
+#include "tracked.h"
+#include <string>
 #include <deque>
 #include <map>
 #include <vector>
@@ -1012,6 +1014,22 @@ static void thrand_run(uint64_t idx)
     for (int step = 0; step < 300; step++)
     {
         int r = (int)rg.below(100), o;
+        if (r < 8 && !t.c->model.empty() && t.c->model.size() < t.c->n)
+        { // self-aliasing argument: push a reference to the ring's own oldest / newest element
+            bool oldest = rg.chance(1, 2);
+            Sample want = oldest ? t.c->model.front() : t.c->model.back();
+            t.hist += oldest ? " push(tail())" : " push(last())";
+            t.c->mode = t.hist.c_str();
+            if (oldest)
+                t.rg->push(t.rg->tail());
+            else
+                t.rg->push(t.rg->last());
+            t.c->model.push_back(want);
+            t.c->check("push(own element)");
+            VF_OK("ring<T> history: push of a reference to the ring's own element stores that element");
+            h = vf::mix(h, 50 + oldest);
+            continue;
+        }
         if (r < 30)
             o = rg.chance(1, 2) ? TH_PUSH : TH_EMPLACE;
         else if (r < 50)
@@ -1401,6 +1419,15 @@ extern "C" void vf_setup()
           "ring<char> history: avail+room == capacity, counts == reference after every op", "ring<char> history: a full ring rejects writes, state unchanged",
           "ring<char> history: data out == data in (FIFO)", "ring<char> history: every short history over write/read/resize/reset/clear, then fill, reject, drain",
           "cring history: ring_init with another size on a used ring gives an empty ring of that size",
-          "cyclic history: size(), [i], counter range == reference after every op incl. resize"})
+          "cyclic history: size(), [i], counter range == reference after every op incl. resize",
+          "ring<T> history: push of a reference to the ring's own element stores that element",
+          "large cring: size, index range, avail/room/empty/full == reference", "large cring: live content == position-dependent pattern",
+          "large cring: bulk read returns the written bytes in order", "large cring: bulk head/tail moves from every boundary slot with every boundary bias",
+          "large ring<char>: room()==n when empty, avail/room == reference", "large ring<T>: counts, distance, tail/last/get_last at boundary offsets == reference",
+          "large cyclic_buffer / ring_counter: [i], prev, last, fixup_pos at boundary offsets == reference",
+          "cyclic_buffer<non-trivial T>: size(), [i] == reference after every push", "cyclic_buffer<non-trivial T>: push returns the overwritten sample",
+          "cyclic_buffer<non-trivial T>: push(cb[i]) of its own i-th sample stores that sample",
+          "cyclic_buffer<non-trivial T>: evicted / moved-from / rvalue arguments and rotation through itself",
+          "cyclic_buffer<Tracked>: no element constructed over a live one, assigned to or read from raw storage, or left undestroyed"})
         vf::require(c);
 }
